@@ -33,7 +33,9 @@ func (c06) Gen(rt *rapid.T, thorough bool) any {
 	s := genAsyncBase(rt, thorough)
 	s.Level = ""
 	s.Refs = []RefSpec{{Ref: "rec0"}}
-	s.LLayout = ""
+	// with a logger-level layout the worker formats events itself and hands bytes to the appender:
+	// the queue in front of it is the same queue
+	s.LLayout = rapid.SampledFrom([]string{"", "", "TextLayout", "JSONLayout"}).Draw(rt, "llayout6")
 	if rapid.IntRange(0, 7).Draw(rt, "rolling_async") == 0 {
 		// (C) the async mode of the RollingFile logger is the same queue behind another front
 		s.Kind, s.RAsync, s.Via, s.Restart, s.RotMs = "RollingFile", true, "direct", false, 3600000
